@@ -378,21 +378,27 @@ def shadowing_dir(world: Tree, p: str) -> bool:
 def make_worlds(ctx: vlib.Ctx) -> tuple[list[Tree], dict[str, int]]:
     rng = vlib.Rng(ctx.seed, "trees")
     fn = ["__init__.py", "__init__.pyi", "a.py", "a.pyi", "b.py"]
-    ex = enum_trees(2, ctx.n(3, 4), fn, ["a", "b"], False)
-    exhaustive = [t for t in ex if n_files(t) > 0]
-    if ctx.quick and len(exhaustive) > 1500:
-        keep = [t for t in exhaustive if n_files(t) <= 2]
-        rest = [t for t in exhaustive if n_files(t) > 2]
-        exhaustive = keep + rng.sample(rest, 1500 - len(keep)) if len(keep) < 1500 else keep
+    ex3 = [t for t in enum_trees(2, 3, fn, ["a", "b"], False) if n_files(t) > 0]
+    if ctx.quick:
+        # every tree with <= 2 files, a seeded sample of the 3-file ones
+        keep = [t for t in ex3 if n_files(t) <= 2]
+        rest = [t for t in ex3 if n_files(t) > 2]
+        exhaustive = keep + rng.sample(rest, max(0, 1500 - len(keep)))
+        complete_upto = 2
+    else:
+        # every tree with <= 3 files, a seeded sample of the 4-file ones
+        ex4 = [t for t in enum_trees(2, 4, fn, ["a", "b"], False) if n_files(t) == 4]
+        exhaustive = ex3 + rng.sample(ex4, min(len(ex4), 1000))
+        complete_upto = 3
     sample = []
     seen = set()
-    for i in range(ctx.n(700, 20000)):
+    for i in range(ctx.n(700, 2000)):
         t = random_tree(rng, 3, [8], exotic=(i % 4 == 0))
         s = tree_str(t)
         if n_files(t) and s not in seen:
             seen.add(s)
             sample.append(t)
-    stats = {"exhaustive_trees": len(exhaustive), "sampled_trees": len(sample)}
+    stats = {"exhaustive_trees": len(exhaustive), "exhaustive_complete_up_to_files": complete_upto, "sampled_trees": len(sample)}
     return [{TOP: t, OUT: {}} for t in exhaustive + sample], stats
 
 
@@ -483,10 +489,13 @@ def correspondence(ctx: vlib.Ctx, exe: str, worlds: list[Tree], workdir: str) ->
     ctx.log("C: mypy answered the same queries")
     uniq_ts = sorted({ts for _, ts, _ in cases})
     valid = dict(zip(uniq_ts, [v == "1" for v in run_driver(exe, [qline(ts, (0, 0, ".", []), "valid") for ts in uniq_ts])]))
+    noshadow = dict(zip(uniq_ts, [v == "1" for v in run_driver(exe, [qline(ts, (0, 0, ".", []), "noshadow") for ts in uniq_ts])]))
     k = 0
     bad = 0
     nontrivial = 0
     s1_cases = s1_checked = 0
+    pkg_checked = 0
+    pkg_bad: list[str] = []
     import collections
     api_only: dict[str, int] = collections.Counter()
     n_eval = 0
@@ -501,6 +510,14 @@ def correspondence(ctx: vlib.Ctx, exe: str, worlds: list[Tree], workdir: str) ->
                 if bad <= 5:
                     ctx.broke("C", "model vs mypy", f"tree [{ts}] ns={cfg[0]} explicit={cfg[1]} cwd={cfg[2]} mypy_path={cfg[3]} :: {c[:200]}\n  model: {m}\n  mypy:  {i}",
                               {"tree": ts, "cfg": cfg, "cmd": c, "model": m, "impl": i})
+        # ---- Statement.dir_eq_package (not proved) evaluated on the model's own answers: a bounded test
+        if cfg[2] == "." and not cfg[3] and valid[ts] and noshadow[ts]:
+            d_m = parse_srcs(ma[0])
+            p_m = parse_srcs(next((m for c, m in zip(cs, ma) if c.startswith(f"fmr {TOP} ")), "ERR"))
+            if d_m and p_m is not None and all(b == "." for _, _, b in d_m):
+                pkg_checked += 1
+                if {(p, m) for p, m, _ in d_m} != {(p, m) for p, m, _ in p_m if p.endswith((".py", ".pyi"))} and len(pkg_bad) < 3:
+                    pkg_bad.append(f"[{ts}] ns={cfg[0]} explicit={cfg[1]}: DIR {ma[0]} vs -p {p_m}")
         # ---- S1 on the implementation's own answers
         finds = {}
         for c, i in zip(cs, ia):
@@ -570,6 +587,12 @@ def correspondence(ctx: vlib.Ctx, exe: str, worlds: list[Tree], workdir: str) ->
     ctx.cov["distinct_nontrivial"] = nontrivial
     ctx.cov["s1_duplicate_module_source_lists"] = dup_cases
     ctx.cov["s1_cases_with_valid_names"] = s1_cases
+    ctx.cov["trees_satisfying_valid_names"] = sum(1 for v in valid.values() if v)
+    ctx.cov["trees_satisfying_no_shadow"] = sum(1 for v in noshadow.values() if v)
+    ctx.cov["trees_with_module_beside_same_named_directory"] = sum(1 for v in noshadow.values() if not v)
+    ctx.cov["model_dir_eq_package_checked"] = pkg_checked
+    ctx.cov["model_dir_eq_package_counterexamples"] = pkg_bad
+    ctx.cov["trees_outside_valid_names"] = sum(1 for v in valid.values() if not v)
     ctx.cov["s1_files_checked"] = s1_checked
     mid = len(cases) // 2
     ctx.sample({"tree": cases[mid][1], "cfg": list(cases[mid][2]), "queries": cmds[mid][:3], "mypy": impl[mid][:3]})
@@ -589,7 +612,7 @@ def cli_stage(ctx: vlib.Ctx, exe: str, worlds: list[Tree], workdir: str) -> None
         {TOP: {"__init__.py": None, "a.py": None, "a.pyi": None, "b": {"__init__.pyi": None, "a.py": None}}, OUT: {}},
         {TOP: {"a": {"b.py": None}, "b": {"b.py": None}}, OUT: {}},
     ]
-    chosen = fixed + rng.sample(pool, min(len(pool), ctx.n(110, 1500)))
+    chosen = fixed + rng.sample(pool, min(len(pool), ctx.n(110, 500)))
     jobs = []
     for wd in chosen:
         for ns, ex, cwd in ((0, 0, "."), (1, 0, "."), (1, 1, "."), (1, 0, OUT)):
